@@ -357,7 +357,7 @@ def _gen_inputs(tier, rng):
         for k0, k1 in list(itertools.product(ODD, repeat=2)) + [(2, 2), (4, 3), (1, 2)]:
             i += 1
             yield {"op": "pad_grid", "m": rmask(h, w, rng, 0.4), "k": [k0, k1], "g": list(GEOMS[i % len(GEOMS)]), "sk": SKS[i % 3],
-                   "via": ["from_mask", "uniform", "no_mask"][i % 3]}
+                   "via": ["from_mask", "uniform", "no_mask"][i % 3], "twice": i % 2 == 0}
     for n in range(60 if big else 16):          # Mask2D.from_fits(resized_mask_shape=..., invert=...)
         h, w = rng.randint(1, 5), rng.randint(1, 5)
         yield {"op": "mask_fits", "m": rmask(h, w, rng, 0.5), "rs": [rng.randint(1, 7), rng.randint(1, 7)], "inv": n % 2 == 1, "sk": SKS[n % 3]}
@@ -976,6 +976,8 @@ def _run_case(inp):
                 grid = aa.Grid2D.no_mask(values=base, pixel_scales=(gf[0], gf[1]), origin=(gf[2], gf[3]))
             g0 = np.array(grid).copy(); fm = fp_mask(grid.mask)
             ks = shp(inp["k"], opt["sk"])
+            if inp.get("twice"):      # the same grid object padded for ANOTHER kernel first
+                _ = np.array(grid.padded_grid_from(kernel_shape_native=(inp["k"][0] + 2, inp["k"][1] + 4)))
             pg = grid.padded_grid_from(kernel_shape_native=ks)
             if list(ks) != list(inp["k"]): geom_bad.append("padded_grid_from modified its kernel shape argument")
             if not np.array_equal(g0, np.array(grid)) or not fp_eq(fm, fp_mask(grid.mask)): geom_bad.append("padded_grid_from modified the grid")
